@@ -11,6 +11,7 @@ from vmon.simkit import Top, Mon, Stop, simulate, bits, biased_bits, spell_featu
 
 from amaranth import Value
 from amaranth_soc import wishbone
+from amaranth_soc.memory import MemoryMap
 
 C08_MONITORS = {"owner_identified", "bus_carries_owner", "sel_fanout", "optional_defaults", "owner_response",
                 "others_isolated", "no_preemption", "owner_dat_r"}
@@ -89,6 +90,7 @@ def run_arb_case(case, judged):
                                   features=spell_features(rng, afeat)))
     intrs = []
     rejected = []
+    upstream, origins = [], []
     slots = case.get("slots") or list(range(n))
     objs = {}
     for pos_, i in enumerate(slots):
@@ -99,8 +101,28 @@ def run_arb_case(case, judged):
             except ValueError:
                 slots = [s_ for k_, s_ in enumerate(slots) if k_ != pos_]      # refusing a duplicate is fine too
             continue
-        ib = wishbone.Interface(addr_width=aw, data_width=dw, granularity=d["gran"],
-                                features=spell_features(rng, d["features"]), path=(f"i{i}",))
+        origin = rng.choice(["plain", "plain", "plain", "arbiter_port", "decoder_window", "decoder_window"])
+        if origin == "arbiter_port":
+            # the requester is the shared bus of another (inner) arbiter: two-level arbitration. Its signals are
+            # driven here directly, as the inner arbiter would
+            ib = wishbone.Arbiter(addr_width=aw, data_width=dw, granularity=d["gran"],
+                                  features=spell_features(rng, d["features"])).bus
+        else:
+            ib = wishbone.Interface(addr_width=aw, data_width=dw, granularity=d["gran"],
+                                    features=spell_features(rng, d["features"]), path=(f"i{i}",))
+        if origin == "decoder_window":
+            # the requester is at the same time a window of an upstream decoder (a bus matrix): it carries a
+            # memory map and is known to that decoder
+            try:
+                gb = (dw // d["gran"]).bit_length() - 1
+                ib.memory_map = MemoryMap(addr_width=max(1, aw + gb), data_width=d["gran"])
+                up = wishbone.Decoder(addr_width=aw + 2, data_width=dw, granularity=d["gran"],
+                                      features={f for f in d["features"] if f in ("err", "rty", "stall")})
+                up.add(ib, name=f"port{i}")
+                upstream.append(up)
+            except (ValueError, TypeError):
+                pass
+        origins.append(origin)
         objs[i] = ib
         if rng.random() < 0.15:
             # an incompatible initiator is refused; the arbiter keeps being used afterwards and the refused
@@ -340,6 +362,8 @@ def run_arb_case(case, judged):
     mon.count("ownership_changes", st["changes"])
     mon.count("released_transitions", st["released_transitions"])
     mon.bin("n_initiators", n)
+    for o_ in origins:
+        mon.bin("initiator_origin", o_)
     mon.bin("scenario", case.get("scenario", "normal"))
     mon.bin("arbiter_features", tuple(sorted(afeat)))
     summary = {"n": n, "aw": aw, "dw": dw, "gran": gran, "features": sorted(afeat),
